@@ -21,7 +21,7 @@ FLAGS = {'EmptyFlags': (0, 0, 0), 'TEFlags.XIsPositive': (1, 0, 0), 'TEFlags.XIs
          'SWFlags.YIsPositive': (2, 0, 0), 'SWFlags.PointAtInfinity': (2, 64, 1), 'SWFlags.YIsNegative': (2, 128, 2)}
 FLAGTY = {'EmptyFlags': 0, 'TEFlags': 1, 'SWFlags': 2}
 FLAGNAME = {'EmptyFlags': 0, 'XIsPositive': 0, 'XIsNegative': 1, 'YIsPositive': 0, 'PointAtInfinity': 1, 'YIsNegative': 2}
-BYTES_IN = {'from_le_bytes_mod_order', 'from_bytes_checked', 'rand', 'ark.from_be_bytes_mod_order', 'ark.from_le_bytes_mod_order', 'ark.deser', 'ark.from_random_bytes'}
+BYTES_IN = {'from_le_bytes_mod_order', 'from_bytes_checked', 'rand', 'ark.from_be_bytes_mod_order', 'ark.from_le_bytes_mod_order', 'ark.deser', 'ark.deser.drip', 'ark.from_random_bytes'}
 BYTES_OUT = {'hash', 'to_bytes', 'to_bytes_le', 'ark.ser'}
 LIMBS_IN = {'ark.from_bigint', 'ark.from_bigint_conv'}
 LIST_IN = {'sum.v', 'sum.r', 'product.v', 'product.r', 'sum.lazy', 'product.lazy'}
